@@ -33,6 +33,7 @@ const (
 	findingMergeScalars       = "C02-plan-merge-scalars-mixes-type-conditions"
 	findingMergeNestedList    = "C02-plan-merge-nested-list-drops-selection"
 	findingNestedAbstract     = "C02-plan-nested-abstract-fragment-loses-outer-condition"
+	findingRootNotObject      = "C02-subgraph-data-not-object-aborts-request"
 )
 
 var resolvablePart = pbt.Part[Case]{Name: "resolvable", Quick: 30000, Thorough: 500000, Gen: genCase(false),
@@ -54,9 +55,9 @@ func newModel(s *gast.Schema, op string) (*model, string) {
 
 func genCase(rootReplace bool) func(t *rapid.T) Case {
 	return func(t *rapid.T) Case {
-		k := rapid.IntRange(0, numFamilies-1).Draw(t, "family")
+		k := uniform(t, numFamilies, "family")
 		f := getFamily(k)
-		steer := rapid.IntRange(0, 7).Draw(t, "steer") != 0
+		steer := uniform(t, 8, "steer") != 0
 		var c Case
 		var m *model
 		for attempt := 0; ; attempt++ {
@@ -70,7 +71,7 @@ func genCase(rootReplace bool) func(t *rapid.T) Case {
 			}
 			if steer && attempt < 10 {
 				// known planner findings: redraw the operation, count each exclusion once
-				if id := m.opClass(); id != "" {
+				if id := m.opClass(pbt.IsKnown); id != "" {
 					if !contains(c.Steered, id) {
 						c.Steered = append(c.Steered, id)
 					}
@@ -81,7 +82,7 @@ func genCase(rootReplace bool) func(t *rapid.T) Case {
 		}
 		dg := &dataGen{t: t, m: m}
 		root := dg.object(f.schema.Query, f.schema.Query.Name, []gast.SelectionSet{m.op.SelectionSet}, true)
-		nmut := []int{0, 0, 1, 1, 1, 1, 1, 2, 2, 2, 3, 3}[rapid.IntRange(0, 11).Draw(t, "nmut")]
+		nmut := []int{0, 0, 1, 1, 1, 1, 1, 2, 2, 2, 3, 3}[uniform(t, 12, "nmut")]
 		for i := 0; i < nmut; i++ {
 			snap := root.clone()
 			var d string
@@ -93,9 +94,9 @@ func genCase(rootReplace bool) func(t *rapid.T) Case {
 				// known findings: drop this mutation and keep searching with the others
 				id := ""
 				switch {
-				case predictsInnerListPanic(m.allOffenders(root)):
+				case pbt.IsKnown(findingPanic) && predictsInnerListPanic(m.allOffenders(root)):
 					id = findingPanic // the outcome is a panic, nothing behind it could be checked
-				case m.concreteNoTypenameClass(root):
+				case pbt.IsKnown(findingConcreteNoTypename) && m.concreteNoTypenameClass(root):
 					id = findingConcreteNoTypename
 				}
 				if id != "" {
@@ -207,11 +208,18 @@ func checkCase(c Case, o *pbt.Rec, engine bool) pbt.Verdict {
 	if engine {
 		o.Journal()
 		r = w.renderEngine(c.Op, []byte(c.Data))
-		if r.err != "" && r.panicked == "" && len(r.out) == 0 {
-			o.Discard("operation-rejected-by-engine")
-			return pbt.OK
-		}
 		o.Labelf("engine:requests=%d", r.requests)
+		if r.err != "" && r.panicked == "" && len(r.out) == 0 {
+			// the same pipeline accepted the operation above, so this is not a rejected operation:
+			// the caller got a Go error and no GraphQL response at all
+			o.Label("out:engine-error-no-response")
+			msg := fmt.Sprintf("engine.Execute returned an error and wrote no response: %s\n  op:   %s\n  j:    %s", r.err, c.Op, clip400(c.Data))
+			if j.k != jObj && j.k != jNull && r.requests == 1 && strings.Contains(r.err, "unable to merge results from subgraph") {
+				o.Label("root-replaced:" + j.k.String())
+				return pbt.BadKnown(findingRootNotObject, "%s", msg)
+			}
+			return pbt.Bad("%s", msg)
+		}
 	} else {
 		if j.k != jObj {
 			o.Discard("root-not-object-for-driver-i")
@@ -225,6 +233,9 @@ func checkCase(c Case, o *pbt.Rec, engine bool) pbt.Verdict {
 	labelOp(o, m)
 	for _, mu := range c.Muts {
 		o.Label("mut:" + strings.SplitN(mu, "@", 2)[0])
+		if i := strings.LastIndex(mu, " ["); i >= 0 && strings.HasSuffix(mu, "]") {
+			o.Label("cellmut:" + mu[i+2:len(mu)-1])
+		}
 	}
 	o.Labelf("muts=%d", len(c.Muts))
 
@@ -287,7 +298,11 @@ func checkCase(c Case, o *pbt.Rec, engine bool) pbt.Verdict {
 	// Attribution to the planner: the tree disagrees with the operation at a position that a
 	// violation is about. Each such disagreement must be recognised, otherwise it is reported.
 	if rel := relevantUnfaithful(uf, res); len(rel) > 0 {
-		msg = fmt.Sprintf("the planner-built tree disagrees with the operation: %v\n  %s", rel, msg)
+		shown := rel
+		if len(shown) > 4 {
+			shown = shown[:4]
+		}
+		msg = fmt.Sprintf("the planner-built tree disagrees with the operation (%d places): %v\n  %s", len(rel), shown, msg)
 		id := ""
 		for _, u := range rel {
 			k := recognisePlanFinding(u)
